@@ -56,8 +56,21 @@ func (vc *VC) parseAssigns(cls []*Clause, env *Env) (regs []region, everything b
 				if err != nil || gt == nil {
 					specFail("assigns: %v", err)
 				}
-				for _, lf := range leavesOf(gt) {
-					regs = append(regs, region{heap: vc.enc.HeapFor(lf.t), all: true})
+				for _, lf := range vc.enc.Leaves(gt) {
+					regs = append(regs, region{heap: lf.heap, all: true})
+				}
+			case strings.HasPrefix(item, "new(") && strings.HasSuffix(item, ")"):
+				// new(T): the function allocates objects of type T; their heaps change at fresh locations only
+				te, err := parseSpecExpr("type[" + item[4:len(item)-1] + "]")
+				if err != nil {
+					specFail("assigns: %v", err)
+				}
+				gt, _, err := vc.w.resolveType(te.(STypeOf).T, env.pkg)
+				if err != nil || gt == nil {
+					specFail("assigns: %v", err)
+				}
+				for _, lf := range vc.enc.Leaves(gt) {
+					regs = append(regs, region{heap: lf.heap, in: func(loc string) string { return "false" }})
 				}
 			case strings.HasPrefix(item, "loc(") && strings.HasSuffix(item, ")"):
 				// loc(T, locExpr): the cell(s) of Go type T at a location given by a ghost expression
@@ -82,9 +95,9 @@ func (vc *VC) parseAssigns(cls []*Clause, env *Env) (regs []region, everything b
 					specFail("assigns: loc() needs a Loc, got %s", lv.Sort)
 				}
 				addr := lv.T
-				for _, lf := range leavesOf(gt) {
+				for _, lf := range vc.enc.Leaves(gt) {
 					l := pathLoc(addr, lf.steps)
-					regs = append(regs, region{heap: vc.enc.HeapFor(lf.t), in: func(loc string) string { return eq(loc, l) }})
+					regs = append(regs, region{heap: lf.heap, in: func(loc string) string { return eq(loc, l) }})
 				}
 			case strings.HasPrefix(item, "elems(") || strings.HasPrefix(item, "elemscap("):
 				capMode := strings.HasPrefix(item, "elemscap(")
@@ -133,9 +146,9 @@ func (vc *VC) parseAssigns(cls []*Clause, env *Env) (regs []region, everything b
 				if capMode {
 					bound = sx("s_cap", st)
 				}
-				for _, lf := range leavesOf(et) {
+				for _, lf := range vc.enc.Leaves(et) {
 					p := pathConst(append(append([]int{}, preSteps...), lf.steps...))
-					regs = append(regs, region{heap: vc.enc.HeapFor(lf.t), in: func(loc string) string {
+					regs = append(regs, region{heap: lf.heap, in: func(loc string) string {
 						return and(eq(sx("l_base", loc), sx("s_arr", st)), sx("<=", sx("s_off", st), sx("l_idx", loc)),
 							sx("<", sx("l_idx", loc), sx("+", sx("s_off", st), bound)), eq(sx("l_path", loc), fmt.Sprint(p)))
 					}})
@@ -150,9 +163,13 @@ func (vc *VC) parseAssigns(cls []*Clause, env *Env) (regs []region, everything b
 					specFail("assigns: %q is not a heap location", item)
 				}
 				addr := v.Addr
-				for _, lf := range leavesOf(v.GoT) {
-					l := pathLoc(addr, lf.steps)
-					regs = append(regs, region{heap: vc.enc.HeapFor(lf.t), in: func(loc string) string { return eq(loc, l) }})
+				if v.Heap != "" {
+					regs = append(regs, region{heap: v.Heap, in: func(loc string) string { return eq(loc, addr) }})
+				} else {
+					for _, lf := range vc.enc.Leaves(v.GoT) {
+						l := pathLoc(addr, lf.steps)
+						regs = append(regs, region{heap: lf.heap, in: func(loc string) string { return eq(loc, l) }})
+					}
 				}
 			}
 		}
@@ -273,6 +290,10 @@ func (vc *VC) execCall(x *ssa.Call, pc string, st *State) {
 		return
 	}
 	name := calleeName(c)
+	if f, ok := c.Value.(*ssa.Function); ok && isInitFunc(vc.fn) && f.Name() == "init" && f.Synthetic != "" && f.Pkg != vc.fn.Pkg {
+		// initializers of imported packages ran before and cannot reach this package's variables
+		return
+	}
 	vc.callCount[name]++
 	ord := vc.callCount[name]
 	var fc *FuncContract
@@ -441,6 +462,15 @@ func (vc *VC) applyContract(fc *FuncContract, name string, formals []string, act
 		}
 		vc.oblige("pre", lbl, pc, g, vc.preTags(c), pos, "precondition of "+name+": "+c.Text)
 	}
+	if vc.fc != nil && fc.Key == vc.fc.Key && vc.fn != nil {
+		// recursive call: the variant must decrease and be bounded below
+		if fc.Decreases == nil {
+			specFail("recursive function %s needs a decreases clause", fc.Key)
+		}
+		mCallee := vc.evalInt(fc.Decreases.Expr, envPre)
+		mSelf := vc.evalInt(fc.Decreases.Expr, vc.baseEnv(vc.entry, vc.entry))
+		vc.oblige("decreases", "recursion", pc, and(sx("<=", "0", mSelf), sx("<", mCallee, mSelf)), vc.tagsFor(fc.Decreases), pos, "recursion variant decreases and is bounded below")
+	}
 	regs, everything := vc.parseAssigns(fc.Assigns, envPre)
 	vc.havocRegions(st, pc, regs, everything, name)
 	out := mkResults()
@@ -492,10 +522,20 @@ func (vc *VC) execReturn(x *ssa.Return, pc string, st *State) {
 	if len(vc.deferred) > 0 {
 		// RunDefers precedes Return in SSA; nothing to do here
 	}
+	if vc.fn.Synthetic != "" && vc.fn.Name() == "init" && vc.pkg != nil {
+		// package initializer: establishes the package's global invariants
+		for _, gi := range vc.w.cs.GlobalInvs {
+			if gi.Pkg != vc.pkg.Path() {
+				continue
+			}
+			env := &Env{vc: vc, st: st, old: st, vars: map[string]SpecVal{}, pkg: vc.pkg}
+			vc.oblige("globalinv", "", pc, vc.evalBool(gi.Expr, env), gi.Tags, x.Pos(), "package init establishes: "+gi.Text)
+		}
+	}
 	if vc.fc == nil {
 		return
 	}
-	env := vc.baseEnv(st, vc.entry)
+	env := vc.localEnv(st, x.Block(), instrIndex(x))
 	res := vc.fn.Signature.Results()
 	for i, r := range x.Results {
 		sv := vc.goVal(vc.val(r), res.At(i).Type())
@@ -627,8 +667,53 @@ func (vc *VC) frameObligations(pc string, st *State, pos token.Pos) {
 // hints: unfold / use / assume / ghost
 
 func (vc *VC) applyHint(c *Clause, env *Env, pc string) {
+	defer func() {
+		if r := recover(); r != nil {
+			if _, ok := r.(labelUnavailable); ok {
+				return // the hint refers to a state that is not on this path: skip it
+			}
+			panic(r)
+		}
+	}()
 	switch c.Kind {
+	case "label":
+		vc.labels[strings.TrimSpace(c.Text)] = &stateLabel{st: env.st.clone(), blk: env.blk}
 	case "unfold":
+		if q, isQ := c.Expr.(SQuant); isQ && q.Forall {
+			call, ok := q.Body.(SCall)
+			if !ok {
+				specFail("unfold forall needs a spec function application body: %s", c.Text)
+			}
+			sf := vc.w.cs.SpecFuncs[call.Fn]
+			if sf == nil || sf.Body == nil || !sf.Rec {
+				specFail("unfold: %s is not a recursive spec function with a body", call.Fn)
+			}
+			vars := map[string]SpecVal{}
+			var binders []string
+			for _, v := range q.Vars {
+				gt, srt := vc.sortOfTypeExpr(v.T, env)
+				name := fmt.Sprintf("%s!f%d", v.Name, env.depth)
+				vars[v.Name] = SpecVal{T: name, Sort: srt, GoT: gt}
+				binders = append(binders, fmt.Sprintf("(%s %s)", name, srt))
+			}
+			n := env.with(vars)
+			n.depth = env.depth + 1
+			body := vc.unfoldTerm(sf, call, n)
+			var pats []string
+			for _, trig := range q.Triggers {
+				var ts []string
+				for _, t := range trig {
+					ts = append(ts, vc.materialize(vc.eval(t, n), n).T)
+				}
+				pats = append(pats, ":pattern ("+strings.Join(ts, " ")+")")
+			}
+			if len(pats) == 0 {
+				// default trigger: the application itself
+				pats = append(pats, ":pattern ("+vc.materialize(vc.eval(call, n), n).T+")")
+			}
+			vc.assume(pc, fmt.Sprintf("(forall (%s) (! %s %s))", strings.Join(binders, " "), body, strings.Join(pats, " ")))
+			return
+		}
 		call, ok := c.Expr.(SCall)
 		if !ok {
 			specFail("unfold needs a spec function application: %s", c.Text)
@@ -927,6 +1012,8 @@ func (vc *VC) dispatchCall(ifc *FuncContract, name string, actuals []SpecVal, re
 		}
 		acts := append([]SpecVal{vc.goVal(vc.enc.Unbox(vc.enc.SortOf(recvT), sx("i_val", recv.T)), recvT)}, actuals[1:]...)
 		vc.assume(pck, vc.typeInv(stk, acts[0].T, recvT))
+		// well-formed interface value: the payload of dynamic type T is a boxed value of T's sort
+		vc.assume(pck, eq(sx("i_val", recv.T), vc.enc.Box(vc.enc.SortOf(recvT), acts[0].T)))
 		var pkg *types.Package
 		if fn.Pkg != nil {
 			pkg = fn.Pkg.Pkg
